@@ -13,7 +13,7 @@ func init() {
 	register(&propertyDef{
 		id:    "C12",
 		title: "a step reports a consistent life story under every interleaving",
-		rules: []ruleFunc{c12Traces, c12R5, c12R6, c12R7, c12R8, c12R10, c12R14},
+		rules: []ruleFunc{c12Traces, c12R5, c12R6, c12R7, c12R8, c12R10, c12R14, c12R16},
 		decided: "typestate rules over ALL notification sequences the step goroutine's code can emit (path exploration of the loop-free run() call tree, every select case and unknown flag forked): declared stages in dependency order (R1), declared outputs (R2), " +
 			"no stage finished twice or both finished and failed (R3), exactly one completion preceded by state=finished (R4), every And-successor of a finished stage reported finished or impossible (R9); closers mark closed first and wait (R5); every input hand-over is once-guarded and cannot block (R6); " +
 			"every channel that is closed has its sends and its close under one mutex with a marker test (R7); stage/state writes hold the step lock (R8). Shared: step goroutines are registered with the wait group before they start, so nothing is notified after Close/ForceClose returned (R10 = C05.R3). No goroutine counted in a step's WaitGroup waits on that group (R14).",
